@@ -103,19 +103,22 @@ fn formatted_case(max: usize) {
     // stated bound: printable characters only - no white space or control characters (the recogniser trims around
     // every piece, and `trim` also removes \x0b) - and no date separator '/'
     while i < b.len() { assume((b[i] > 32) & (b[i] < 127) & (b[i] != b'/')); i += 1; }
+    // shapes 5-7: the same with white space around them - typed text is trimmed before it is read
     let shape = any_u8();
-    assume(shape < 5);
+    assume(shape < 8);
     let text = if shape == 0 { body.clone() } else if shape == 1 { format!("{body}%") } else if shape == 2 { format!("${body}") }
-               else if shape == 3 { format!("-${body}") } else { format!("{body}$") };
+               else if shape == 3 { format!("-${body}") } else if shape == 4 { format!("{body}$") }
+               else if shape == 5 { format!("{body}% ") } else if shape == 6 { format!(" {body}") } else { format!(" ${body} ") };
+    let text_trimmed = text.trim().to_string();
     let locale = locale_with(".", ",");
     let got = parse_formatted_number(&text, &["$"], &locale);
     // what the property says each shape means, decided on the text itself (a body may bring its own % or $)
     let (inner, negate, percent, currency): (Option<(f64, bool, bool)>, bool, bool, bool) =
-        if let Some(p) = text.strip_suffix('%') { (kernel(p), false, true, false) }
-        else if let Some(p) = text.strip_prefix("-$") { (kernel(p), true, false, true) }
-        else if let Some(p) = text.strip_prefix('$') { (kernel(p), false, false, true) }
-        else if let Some(p) = text.strip_suffix('$') { (kernel(p), false, false, true) }
-        else { (kernel(&text), false, false, false) };
+        if let Some(p) = text_trimmed.strip_suffix('%') { (kernel(p), false, true, false) }
+        else if let Some(p) = text_trimmed.strip_prefix("-$") { (kernel(p), true, false, true) }
+        else if let Some(p) = text_trimmed.strip_prefix('$') { (kernel(p), false, false, true) }
+        else if let Some(p) = text_trimmed.strip_suffix('$') { (kernel(p), false, false, true) }
+        else { (kernel(&text_trimmed), false, false, false) };
     match (got, inner) {
         (Ok((v, fmt)), Some((w, scientific, grouped))) => {
             let w2 = if percent { w / 100.0 } else { w };
